@@ -1569,6 +1569,19 @@ def check_C09(ctx):
         if rng.random() < 0.15:
             pairs.insert(rng.randrange(len(pairs) + 1), ("no_such_library.so", None))
         runs.append((pairs, rng.choice([[], ["-q"], ["--xml", "X"], ["-s", "Common"]])))
+    # the same test names in several contexts (also the default one), selected by wildcard context + literal name
+    for k2, ctxs in enumerate([["Tcp", "Tls", "default"], ["Alpha", "Alp", "Al", "Beta"]]):
+        name = f"libsame{k2}_tests.so"
+        items = sorted((c, n) for c in ctxs for n in ["connects", "closes_fails", "x"])
+        srcs = []
+        for c, text in library_sources(name, items).items():
+            src = os.path.join(libdir, f"libsame{k2}_{c}.c"); open(src, "w").write(text); srcs.append(src)
+        r = sh(["gcc", "-shared", "-fPIC", "-w", f"-I{REPO}/include"] + srcs + ["-o", os.path.join(libdir, name), f"-L{impl['dir']}", "-lcgreen"])
+        if r.returncode != 0:
+            raise BuildError("test library: " + r.stdout[-1500:])
+        libs.append((name, items))
+        for pat in ["*:connects", "T*:connects", "*:x", "A*:x", "Al*:connects", "*:closes_fails", "*l*:x", "connects", "*"]:
+            runs.append(([(name, pat)], rng.choice([[], ["-q"], ["--xml", "X"]])))
     libmap = dict(libs)
 
     def one(i_run):
